@@ -48,7 +48,8 @@ __attribute__((noreturn)) static void h_exit(int c) {
 typedef struct { unsigned char *p; size_t n, cap; } hbuf;
 static inline void hbuf_add(hbuf *b, const void *s, size_t n) {
   if (b->n + n > b->cap) { b->cap = (b->n + n) * 2 + 64; b->p = realloc(b->p, b->cap); }
-  memcpy(b->p + b->n, s, n); b->n += n;
+  if (n) memcpy(b->p + b->n, s, n);
+  b->n += n;
 }
 static inline void hbuf_reset(hbuf *b) { b->n = 0; }
 
